@@ -138,7 +138,7 @@ CHECKS = {
     ]),
     "C18": dict(level="exploration", parts=[
         dict(prop="REG", harness="api_pbt", quick=dict(count=0, workers=1), thorough=dict(count=0, workers=1)),  # regression scenarios
-        dict(prop="C18", harness="table_pbt", quick=dict(count=2400, workers=8), thorough=dict(count=140000, workers=16),
+        dict(prop="C18", harness="table_pbt", quick=dict(count=2400, workers=8), thorough=dict(count=80000, workers=16),
              essential=_V2_SCHEMAS + ["column-range=0", "column-range=1", "column-range=2", "row>=40-populated", "add", "update", "remove",
                                       "nonexistent-row", "unsupported-column", "origin:fix-up"] +
                        ["set_" + c for c in ["play_order", "length", "bpm", "year", "path", "filename", "bitrate", "bpm_analyzed", "album_art_id",
